@@ -223,6 +223,10 @@ fn soup(ch: &mut Chooser) -> String {
 
 /// depth of the syntax tree, measured iteratively
 pub fn tree_depth(src: &str) -> usize {
+    if !crate::translate::parse_terminates(src, crate::translate::PARSE_LIMIT_MS) {
+        // no tree to measure; classify() reports the input as the parser-library livelock
+        return 0;
+    }
     let doc = qmluic::qmldoc::UiDocument::parse(src, "T", None);
     let mut cursor = doc.root_node().walk();
     let mut depth = 1usize;
@@ -255,6 +259,9 @@ pub fn classify(src: &str, mode: Mode) -> Classified {
     let t = translate_opts(src, "T", Opts { mode, build_despite_syntax_errors: true, render: true, lowercase: true });
     let detail = |why: &str| json!({"input": src, "mode": mode.name(), "why": why, "syntax_errors": t.syntax_errors, "diagnostics": t.diag_summary(), "panic": t.panic});
     let mk = |k: &str, why: String| Classified { failure: Some(Failure { key: format!("c07-{k}"), what: why.clone(), detail: detail(&why) }), recovery_seen: false, semantic_diag: false };
+    if t.parse_hang {
+        return mk("parser-library-livelock", format!("parsing does not terminate: the parser library (tree-sitter, called from UiDocument::parse without a limit) did not finish within {} ms on a {}-byte input", crate::translate::PARSE_LIMIT_MS, src.len()));
+    }
     if let Some(p) = &t.panic {
         // key by panic location so that distinct crashes stay distinct
         let loc: String = p.split(": ").next().unwrap_or("").rsplit('/').next().unwrap_or("").replace(':', "-");
@@ -411,7 +418,7 @@ pub fn run(env: &Env, known: &Known, started: Instant, replayed: u64, replay_vio
     // the real binary on a sample, plus the deep-nesting probe (known finding F12)
     let n_cli = env.tier.pick(480, 6000);
     let seqs = sample_choices(env, PID, "cli", n_cli, 2500);
-    let mut inputs: Vec<(String, Option<Vec<u32>>)> = seqs.into_iter().map(|c| (gen_input(&mut Chooser::new(&c)), Some(c))).filter(|(s, _)| tree_depth(s) <= MAX_TREE_DEPTH).collect();
+    let mut inputs: Vec<(String, Option<Vec<u32>>)> = seqs.into_iter().map(|c| (gen_input(&mut Chooser::new(&c)), Some(c))).filter(|(s, _)| tree_depth(s) <= MAX_TREE_DEPTH && translate::parse_terminates(s, translate::PARSE_LIMIT_MS)).collect();
     inputs.push((format!("import qmluic.QtWidgets\nQSpinBox {{ value: {} }}\n", vec!["1"; 5000].join("-")), None));
     inputs.push((format!("import qmluic.QtWidgets\n{}{}\n", "QWidget { ".repeat(5000), "}".repeat(5000)), None));
     let results: Vec<Result<(), Failure>> = inputs.par_iter().map(|(s, _)| check_cli(s)).collect();
